@@ -121,6 +121,9 @@ def findings_opt():
     # never called): at -Q2+ copy propagation builds (Cast BInt (Arr Char ...)) and foamAudit aborts with "Bad type"
     fj = _os.path.join(_os.path.dirname(_os.path.abspath(__file__)), "fixed_json", "F11_union_other_branch_cast.json")
     out.append(_json.load(open(fj)))
+    # F13: a function whose body holds a try with a finally part and that returns a closure holding another try: "bad case" at -Q2+
+    fj = _os.path.join(_os.path.dirname(_os.path.abspath(__file__)), "fixed_json", "F13_try_and_closure_try.json")
+    out.append(_json.load(open(fj)))
     return out
 
 
